@@ -16,5 +16,7 @@ sys.path.insert(0, "vx")
 import gen
 print("expanded:", gen.ensure_expanded())
 print("derive samples:", gen.ensure_expanded("units/u2_sysdata/derive_samples.rs"))
+import replay
+print("bounded-search harness:", replay.build())
 EOP
 echo setup ok
